@@ -179,10 +179,33 @@ theorem deleteLayer_cases (root : Bool) (t : FS) (n : Name) :
 
 theorem layerPath_ne (n : Name) : layerPath n ≠ [] := by simp [layerPath]
 
-theorem deleteLayer_frame (root : Bool) (t : FS) (n : Name) (hd : isDirAt t [layersName] = true) :
+theorem tomlName_ne (n : Name) : tomlName n ≠ n := by
+  intro h
+  have := congrArg List.length h
+  simp [tomlName] at this
+
+theorem tomlPath_ne_layerPath (n : Name) : tomlPath n ≠ layerPath n := by
+  intro h
+  simp [tomlPath, layerPath] at h
+  exact tomlName_ne n h
+
+/-- when `<layers>/<n>` is a regular file that has other names, `delete_layer` fails -/
+theorem deleteLayer_hard_fails (root : Bool) (t : FS) (n : Name) (hd : isDirAt t [layersName] = true)
+    (hh : isHardAt t (layerPath n) = true) :
+    (deleteLayer root t n).1 = .error .access ∨ (deleteLayer root t n).1 = .error .notDir := by
+  have hc : Canon t (layerPath n) := canon_pair t _ _ hd
+  have hf := rmRec_hard_fails root (maxKeyLen t) t (layerPath n) (layerPath_ne n) hc hh
+  rcases deleteLayer_cases root t n with ⟨h, _⟩ | ⟨_, hres⟩
+  · rw [h]; exact hf
+  · exfalso
+    rcases hres with hres | hres <;> rcases hf with hf | hf <;>
+      · rw [show depthFuel t = maxKeyLen t + 1 from rfl] at hres; rw [hres] at hf; cases hf
+
+theorem deleteLayer_frame (root : Bool) (t : FS) (n : Name) (hd : isDirAt t [layersName] = true)
+    (hnh : isHardAt t (layerPath n) = false) :
     Frame n t (deleteLayer root t n).2 := by
   have hc : Canon t (layerPath n) := canon_pair t _ _ hd
-  have hu := rmRec_untouched root (depthFuel t) t (layerPath n) (layerPath_ne n) hc
+  have hu := rmRec_untouched root (depthFuel t) t (layerPath n) (layerPath_ne n) hc hnh
   have hf1 : Frame n t (rmRec root (depthFuel t) t (layerPath n)).2 := frame_of_untouched hu
   rcases deleteLayer_cases root t n with ⟨h, _⟩ | ⟨h, _⟩
   · rw [h]; exact hf1
@@ -197,7 +220,11 @@ theorem deleteLayer_gone (root : Bool) (t : FS) (n : Name) (hd : isDirAt t [laye
     (hok : (deleteLayer root t n).1 = .ok ()) : Gone n (deleteLayer root t n).2 := by
   have hc : Canon t (layerPath n) := canon_pair t _ _ hd
   have hne := layerPath_ne n
-  have hu := rmRec_untouched root (depthFuel t) t (layerPath n) hne hc
+  have hnh : isHardAt t (layerPath n) = false := by
+    cases hh : isHardAt t (layerPath n) with
+    | false => rfl
+    | true => rcases deleteLayer_hard_fails root t n hd hh with h | h <;> · rw [h] at hok; cases hok
+  have hu := rmRec_untouched root (depthFuel t) t (layerPath n) hne hc hnh
   have hf1 : Frame n t (rmRec root (depthFuel t) t (layerPath n)).2 := frame_of_untouched hu
   rcases deleteLayer_cases root t n with ⟨h, e, he, hne'⟩ | ⟨h, hres⟩
   · rw [h, he] at hok; cases hok
@@ -205,12 +232,12 @@ theorem deleteLayer_gone (root : Bool) (t : FS) (n : Name) (hd : isDirAt t [laye
     have hgone1 : ∀ k, isPre (layerPath n) k = true →
         fget (rmRec root (depthFuel t) t (layerPath n)).2 k = none := by
       rcases hres with hres | hres
-      · exact rmRec_ok_gone root _ t _ hne hc hb hres
+      · exact rmRec_ok_gone root _ t _ hne hc hnh hb hres
       · have habs : fget t (layerPath n) = none := by
           cases hg : fget t (layerPath n) with
           | none => rfl
           | some v =>
-            exact absurd hres (rmRec_ne_notFound root _ t _ hne hc (by simp [hg]))
+            exact absurd hres (rmRec_ne_notFound root _ t _ hne hc hnh (by simp [hg]))
         have hs : (rmRec root (depthFuel t) t (layerPath n)).2 = t := rmRec_absent root _ t _ hne hc habs
         rw [hs]
         intro k hk
@@ -249,6 +276,7 @@ theorem statDir_single (root : Bool) (s : FS) (d : Name) (hd : isDirAt s [d] = t
     cases v with
     | dir m => right; rfl
     | file m c => cases hd
+    | hard i m c => cases hd
     | link t => cases hd
 
 /-- `mkdir <d>/<x>` in a real directory `<d>`: never not-found; on success exactly the key `<d>/<x>` becomes a directory -/
@@ -311,6 +339,7 @@ theorem writeFile_pair (root : Bool) (s : FS) (d x : Name) (c : Bytes) (hd : isD
     cases v with
     | dir m => left; exact ⟨_, rfl⟩
     | link t => left; exact ⟨_, rfl⟩
+    | hard i m c' => left; exact ⟨_, rfl⟩
     | file m c' =>
       simp only
       by_cases hw : (root || bit m 128) = true
@@ -375,7 +404,8 @@ theorem tag_snd (b : Bool) (r : CreateRes) : (tag b r).2 = r.2 := by
   obtain ⟨res, s⟩ := r
   cases res <;> rfl
 
-theorem request_frame_lemma (root : Bool) (api : Api) (t : FS) (n : Name) (hd : isDirAt t [layersName] = true) :
+theorem request_frame_lemma (root : Bool) (api : Api) (t : FS) (n : Name) (hd : isDirAt t [layersName] = true)
+    (hnh : isHardAt t (layerPath n) = false) :
     Frame n t (request root api t n).2 := by
   unfold request
   simp only
@@ -393,19 +423,22 @@ theorem request_frame_lemma (root : Bool) (api : Api) (t : FS) (n : Name) (hd : 
         exact frame_trans hf1 (createLayer_frame root api _ n (layersDir_of_frame hf1 hd))
     · -- the layer exists
       have hw : ∀ s1, (if existsB root t (tomlPath n) then Except.ok t else writeFile root t (tomlPath n) emptyToml)
-          = .ok s1 → Frame n t s1 := by
+          = .ok s1 → Frame n t s1 ∧ fget s1 (layerPath n) = fget t (layerPath n) := by
         intro s1 h
         split at h
-        · cases h; exact frame_refl _ _
+        · cases h; exact ⟨frame_refl _ _, rfl⟩
         · rcases writeFile_pair root t layersName (tomlName n) emptyToml hd with ⟨e, he⟩ | ⟨m, he⟩
           · rw [show tomlPath n = [layersName, tomlName n] from rfl, he] at h; cases h
           · rw [show tomlPath n = [layersName, tomlName n] from rfl, he] at h; cases h
-            exact frame_fset_own t _ (own_toml n)
+            exact ⟨frame_fset_own t _ (own_toml n),
+              fget_fset_ne t (tomlPath n) (layerPath n) _ (Ne.symm (tomlPath_ne_layerPath n))⟩
       cases hx : (if existsB root t (tomlPath n) then Except.ok t else writeFile root t (tomlPath n) emptyToml) with
       | error e => exact frame_refl _ _
       | ok s1 =>
         simp only
-        have hf1 := hw s1 hx
+        have hf1 := (hw s1 hx).1
+        have hnh1 : isHardAt s1 (layerPath n) = false := by
+          unfold isHardAt at hnh ⊢; rw [(hw s1 hx).2]; exact hnh
         have hd1 := layersDir_of_frame hf1 hd
         cases readFile root s1 (tomlPath n) with
         | error e => exact hf1
@@ -413,7 +446,7 @@ theorem request_frame_lemma (root : Bool) (api : Api) (t : FS) (n : Name) (hd : 
           simp only
           split
           · exact hf1
-          · have hf2 := frame_trans hf1 (deleteLayer_frame root s1 n hd1)
+          · have hf2 := frame_trans hf1 (deleteLayer_frame root s1 n hd1 hnh1)
             generalize deleteLayer root s1 n = r at hf2
             obtain ⟨res, s2⟩ := r
             cases res with
